@@ -219,8 +219,13 @@ impl Types {
             }
             MemberKind::Int(n) => {
                 let value = permissive::deserialize::<I256, _>(value)?;
+                // NOTE: A two's complement `intN` holds values in the range
+                // `[-2^(N-1), 2^(N-1))`. For negative values, the magnitude
+                // of the bitwise complement `-value - 1` is what needs to fit
+                // in the `N - 1` value bits.
+                let magnitude = if value < 0 { !value } else { value };
                 ensure!(
-                    value.unsigned_abs().leading_zeros() + n >= 256,
+                    magnitude.leading_zeros() + n > 256,
                     "value {value:#x} overflows int{n}",
                 );
                 value.to_be_bytes()
